@@ -28,6 +28,20 @@ LEVEL = "fault_enumeration"
 WRAP = ("-Wl,--wrap=fopen,--wrap=fwrite,--wrap=fflush,--wrap=fclose",)
 UNKNOWN_CAP = 1000000
 
+
+def nproc():
+    """parallelism of harness processes and TLC trace validators (VERIF_NPROC caps it on a shared box)"""
+    try:
+        return max(1, int(os.environ.get("VERIF_NPROC", common.NCPU)))
+    except ValueError:
+        return common.NCPU
+
+
+def tick(t0, what):
+    import time
+    common.log("C18 %-28s %.1fs" % (what, time.time() - t0))
+    return time.time()
+
 # design variants: cfg -> invariant expected to be violated (None = must hold)
 MODELS = [("MC_Sink_fixed", None), ("MC_Sink_stop", None), ("MC_Sink_asis", "InvAck"), ("MC_Sink_nolatch", "InvAck"),
           ("MC_Sink_noremove", "InvAbort"), ("MC_Sink_nowrite", "InvAck")]
@@ -332,10 +346,10 @@ def model_check(chk):
     chk.part("model", **out)
 
 
-def execute(binary, lines, fdir, nproc=None):
+def execute(binary, lines, fdir, np=None):
     def per_chunk(i, ln):
         return ln.replace("@PATH@", os.path.join(fdir, "w%d.parquet" % i)).replace("@DIR@", fdir)
-    return common.run_harness_parallel(binary, lines, nproc=nproc, line_for_chunk=per_chunk, per_case_timeout=60.0)
+    return common.run_harness_parallel(binary, lines, nproc=np or nproc(), line_for_chunk=per_chunk, per_case_timeout=60.0)
 
 
 def signature_of(w):
@@ -354,7 +368,10 @@ def run(chk, tier, replay):
         "Sink failures: device refuses bytes (short write / ENOSPC / EFBIG) at a byte offset or during one stream operation, persistent or one-shot; fclose reporting a deferred error",
         "TLC; Sink.tla/WriterSink.tla/SinkTrace.tla/ParquetFile.tla; harness h_sink copies bytes and return values only",
     ]
+    import time
+    t0 = time.time()
     model_check(chk)
+    tick(t0, "model checking")
     r = common.tlc_ok(common.run_tlc("MC_ThriftSelf", workers=4, want_cases=False), "MC_ThriftSelf")
     if r.violated:
         raise common.InfraError("MC_ThriftSelf self-check failed")
@@ -384,12 +401,16 @@ def run(chk, tier, replay):
 
 
 def _run(chk, tier, replay, binary, fdir, extra_paths):
+    import time
+    t0 = time.time()
     step = 7 if tier == "quick" else 1
     if replay:
         case = json.load(open(replay))["case"]
         groups = [(case["ops"], case["codec"], case["page"], True, True)]
     else:
         hs = histories(chk, tier)
+        if os.environ.get("C18_LIMIT"):          # development knob: fewer histories
+            hs = hs[:int(os.environ["C18_LIMIT"])]
         tset, sset = set(trunc_configs(tier)), set(sink_configs(tier))
         groups = []
         for hi, ops in enumerate(hs):
@@ -402,6 +423,7 @@ def _run(chk, tier, replay, binary, fdir, extra_paths):
         for i in range(0, len(hs), max(1, len(hs) // 3)):
             chk.sample({"history": hs[i]})
 
+    t0 = tick(t0, "histories (%d groups)" % len(groups))
     # ---- phase 1: fault-free runs (reference files)
     ref_cfg = RunCfg("c", "d")
     lines = [run_line("g%dr0" % gi, g[0], g[1], g[2], ref_cfg) for gi, g in enumerate(groups)]
@@ -417,16 +439,17 @@ def _run(chk, tier, replay, binary, fdir, extra_paths):
     # the embedded-file history (complete proper prefix), built from carquet's own empty file
     if not replay:
         eh = embedded_history()
-        r0, _, _ = execute(binary, [run_line("emb0", eh, 0, 1 << 20, ref_cfg)], fdir, nproc=1)
+        r0, _, _ = execute(binary, [run_line("emb0", eh, 0, 1 << 20, ref_cfg)], fdir, np=1)
         _, _, inner = events_of_run("emb", "emb0", eh, r0.get("emb0", []), ref_cfg)
         if inner:
             ops = [eh[0], {"op": "WriteBatch", "c": 0, "n": 1, "withDefs": False, "defs": [0], "vals": [list(inner)]}, {"op": "Close"}]
             gi = len(groups)
             groups.append((ops, 0, 1 << 20, True, False))
-            r1, _, _ = execute(binary, [run_line("g%dr0" % gi, ops, 0, 1 << 20, ref_cfg)], fdir, nproc=1)
+            r1, _, _ = execute(binary, [run_line("g%dr0" % gi, ops, 0, 1 << 20, ref_cfg)], fdir, np=1)
             if r1.get("g%dr0" % gi):
                 refs[gi] = events_of_run("g%d" % gi, "g%dr0" % gi, ops, r1["g%dr0" % gi], ref_cfg)
 
+    t0 = tick(t0, "reference runs")
     # ---- phase 2: prefix sweeps and fault / abort runs
     lines, plan = [], {}
     ncuts = 0
@@ -455,6 +478,7 @@ def _run(chk, tier, replay, binary, fdir, extra_paths):
                 plan[gi]["runs"].append((rid, rc))
                 lines.append(run_line(rid, ops, codec, page, rc))
     res, faults2, leaky2 = execute(binary, lines, fdir)
+    t0 = tick(t0, "harness (%d lines)" % len(lines))
     fault_by = {}
     for f in list(faults) + list(faults2):
         fault_by.setdefault(f.case_id, []).append(f.signature())
@@ -503,7 +527,9 @@ def _run(chk, tier, replay, binary, fdir, extra_paths):
                 evs.append({"id": gid, "run": rid + " " + rc.label(), "e": "Fault", "kind": s})
         execs.append(evs)
 
+    t0 = tick(t0, "events")
     verdicts, stats, ress = validate(execs)
+    t0 = tick(t0, "trace validation (%d events)" % sum(len(e) for e in execs))
     for r in ress:
         chk.add_tlc(r)
     chk.cov["traces_validated_against_impl"] += stats["runs"]
@@ -511,7 +537,8 @@ def _run(chk, tier, replay, binary, fdir, extra_paths):
              undecided=stats["undecided"], rejection_codes=code_hist,
              configs=[(wcommon.CODECS[c], p) for c, p in trunc_configs(tier)])
     chk.part("sink", groups=sum(1 for gi in plan if plan[gi]["runs"]), runs=nruns, failure_points=nfail_points, byte_step=step, by_sink=kinds,
-             stream_ops_checked_against_Sink_tla=stats["sinkops"], model_drift=stats["drift"], ok_closes_under_faults=stats["okcloses"],
+             stream_ops_checked_against_Sink_tla=stats["sinkops"], model_drift=stats["drift"], ok_closes_under_faults=stats["okcloses"], ok_closes_judged_by_reference_reader=stats["parsedcloses"],
+             ok_closes_undecided=stats["undecidedcloses"],
              failed_calls=stats["failed"], failed_calls_without_sink_failure=stats["spurious"], aborts=stats["aborts"],
              configs=[(wcommon.CODECS[c], p) for c, p in sink_configs(tier)])
     if stats["drift"]:
@@ -537,14 +564,14 @@ def validate(execs):
     from concurrent.futures import ThreadPoolExecutor
     import shutil
     import tempfile
-    nproc = common.NCPU
+    np_ = nproc()
     # balance by size: big groups first, round-robin
     order = sorted(range(len(execs)), key=lambda i: -len(execs[i]))
-    chunks = [[] for _ in range(max(1, min(nproc, len(execs))))]
+    chunks = [[] for _ in range(max(1, min(np_, len(execs))))]
     for n, i in enumerate(order):
         chunks[n % len(chunks)].append(execs[i])
     tdir = tempfile.mkdtemp(prefix="trace-", dir=common.scratch_root())
-    keys = ["execs", "runs", "events", "failed", "sinkops", "drift", "okcloses", "spurious", "aborts", "cuts", "opened", "undecided"]
+    keys = ["execs", "runs", "events", "failed", "sinkops", "drift", "okcloses", "spurious", "parsedcloses", "undecidedcloses", "aborts", "cuts", "opened", "undecided"]
 
     def work(args):
         i, exs = args
@@ -558,7 +585,7 @@ def validate(execs):
 
     verdicts, stats, ress = [], {k: 0 for k in keys}, []
     try:
-        with ThreadPoolExecutor(max_workers=nproc) as ex:
+        with ThreadPoolExecutor(max_workers=np_) as ex:
             for res in ex.map(work, list(enumerate(chunks))):
                 ress.append(res)
                 if res.error or res.rc != 0 or not res.cases:
